@@ -130,6 +130,15 @@ class InputExp(_Validation, fsm.FSM):
     def on_enter_expired(self) -> None:
         self.sdata.pop('input', None)
 
+    def _restore_state(self, istate: Sequence, /) -> None:
+        """Restore the saved state; the saved input value must pass the validation."""
+        state, exp_timestamp, *rest = istate
+        sdata = rest[0] if rest else {}
+        if 'input' in sdata:
+            # a ValueError makes the caller ignore the saved state
+            sdata = {**sdata, 'input': self._validate(sdata['input'])}
+        super()._restore_state((state, exp_timestamp, sdata))
+
     def calc_output(self) -> Any:
         """Stop the FSM part from setting the output."""
         return self.sdata['input'] if self._state == 'valid' else self._expired
